@@ -87,6 +87,13 @@ type Endpoint struct {
 	bufSize    int
 	bracket    int
 	exitCh     chan struct{}
+
+	// keepReading: number of further Read calls made after the first Read
+	// error (an application is free to call Read again; what those calls
+	// deliver is appended to got like everything else)
+	keepReading   int
+	readsAfterErr int
+	gotAfterErr   int
 }
 
 // Start launches the endpoint goroutine.
@@ -130,13 +137,35 @@ func (ep *Endpoint) run(setup func() (net.Conn, error)) {
 			ep.got = append(ep.got, buf[:n]...)
 			ep.reads = append(ep.reads, n)
 		}
-		if err != nil {
+		if ep.readErr != nil {
+			ep.readsAfterErr++
+			ep.gotAfterErr += n
+		}
+		if err != nil && ep.readErr == nil {
 			ep.readErr = err
+		}
+		if ep.readErr != nil && ep.readsAfterErr >= ep.keepReading {
 			ep.mu.Unlock()
 			return
 		}
 		ep.mu.Unlock()
 	}
+}
+
+// KeepReading makes the read loop call Read k more times after the first
+// error (ReadErr stays the first error).
+func (ep *Endpoint) KeepReading(k int) {
+	ep.mu.Lock()
+	ep.keepReading = k
+	ep.mu.Unlock()
+}
+
+// AfterErr returns the number of Read calls made after the first error and the
+// number of bytes they delivered.
+func (ep *Endpoint) AfterErr() (reads, bytes int) {
+	ep.mu.Lock()
+	defer ep.mu.Unlock()
+	return ep.readsAfterErr, ep.gotAfterErr
 }
 
 // SetBuf sets the buffer size used by the following Read calls.
